@@ -777,8 +777,34 @@ def _width_extra(pid):
     return f
 def extra_C02(rng, tier, st, cov):
     return _width_extra('C02')(rng, tier, st, cov) + extra_C04(rng, tier, st, cov, pid='C02')
+def _fenv_twins(rng, tier, st, cov):
+    """the floating-point environment as an output (C++ only): a run whose integrand returns quiet NaN / infinities must leave the
+    same exception flags raised as its twin that returns zero at those points (a user who traps FE_INVALID must not be killed by
+    the library looking at a non-finite value)"""
+    import props
+    out = []; exe = st['cxx_exe']; n = 0
+    for t in ('d', 'f', 'l'):
+        fmt = FMTS[t]
+        for kind in ('plain', 'vegas', 'mc'):
+            for _ in range(2 if tier == 'quick' else 8):
+                s, cl, info = props.rand_run(rng, fmt, kind, poly=False, iters=2, calls=[5, 8], value_classes=['small_int', 'frac', 'nan', 'inf', 'ninf', 'zero'], cb=['script', []])
+                twin = zeroed_twin(s, fmt)
+                if twin is None: continue
+                res = []
+                for spec in (s, twin):
+                    spec = [e for e in spec if e[0] != 'fenv']; spec.insert(len(spec) - 1, ['fenv', 1])
+                    rc, o = run_one(exe, dump([1, t, 'run', spec, []]))
+                    import re as _re
+                    res.append(_re.findall(r'\(fenv #([0-9a-f]+) #([0-9a-f]+)\)', dump(o[1])) if o else None)
+                n += 1
+                if res[0] is not None and res[1] is not None and res[0] != res[1]:
+                    out.append(viol('a run with non-finite integrand values leaves other floating-point exception flags raised (invalid, divide-by-zero per run: %s) than its twin with zeros at those points (%s)' % (res[0], res[1]),
+                                    [[1, t, 'run', s]]))
+    cov.setdefault('extra', {})['fenv_twins'] = {'pairs': n}
+    return out
+
 def extra_C06(rng, tier, st, cov):
-    return _width_extra('C06')(rng, tier, st, cov) + extra_C04(rng, tier, st, cov, pid='C06')
+    return _width_extra('C06')(rng, tier, st, cov) + extra_C04(rng, tier, st, cov, pid='C06') + _fenv_twins(rng, tier, st, cov)
 
 # ---- group oracles on run observations (exact) -------------------------------------------------------
 def texts_of(out):
